@@ -232,6 +232,11 @@ func (s *Server) RoundTrip(req *http.Request) (*http.Response, error) {
 				if req.Method == "GET" && !(k == "flip" && strings.Contains(path, "/manifests/")) {
 					menu = append(menu, k)
 				}
+			case "307":
+				// an upload answered with a redirect (the body of an upload cannot be replayed: the client sees the 307 itself)
+				if (req.Method == "PUT" || req.Method == "PATCH") && strings.Contains(path, "/blobs/uploads/") {
+					menu = append(menu, k)
+				}
 			case "ignore-range":
 				if isBlobGet && req.Header.Get("Range") != "" {
 					menu = append(menu, k)
@@ -258,6 +263,8 @@ func (s *Server) RoundTrip(req *http.Request) (*http.Response, error) {
 		return s.errJSON(req, 404, "NOT_FOUND", "injected"), nil
 	case "neterr":
 		return nil, errNet
+	case "307":
+		return s.resp(req, 307, map[string]string{"Location": "https://" + s.Host + "/elsewhere" + path}, nil), nil
 	}
 
 	// ---- auth -------------------------------------------------------------------
